@@ -243,26 +243,32 @@ def witness : List QTx :=
    mkTx 8 9129 3811179]
 
 /-- every witness transaction respects the admission cap -/
-example : ∀ t ∈ witness, t.env ≤ txMax ∧ t.payload ≤ t.env := by decide
+example : ∀ t ∈ witness, t.env ≤ 4194304 ∧ t.payload ≤ t.env := by decide
+
+/-- the constants of the tree in which the defect was found and replayed (written out, so that
+    a later retuning of the limits does not touch this historical witness) -/
+def foundMax : Nat := 33554432
+def foundCap : Nat := 255
 
 /-- With the payload rule (the code as found) the nine transactions form ONE group whose plain
     bundle is 33 766 037 bytes — above `TransportMessageMaxSize` — and `buildRelayMessage`
     panics on it: the negation of `bundle_fits` for `Acct.payload`. -/
 theorem bundle_fits_counterexample_unsigned :
-    groups .payload (threshold maxSize) snapTxMax witness = [witness] ∧
-    bundleMsg snapTxMax (witness.map (·.env)) = some 33766037 ∧
-    maxSize < 33766037 ∧ relayMsg maxSize 33766037 = none ∧
-    ¬ Fits maxSize snapTxMax (witness.map (·.env)) := by
+    groups .payload (threshold foundMax) foundCap witness = [witness] ∧
+    bundleMsg foundCap (witness.map (·.env)) = some 33766037 ∧
+    foundMax < 33766037 ∧ relayMsg foundMax 33766037 = none ∧
+    ¬ Fits foundMax foundCap (witness.map (·.env)) := by
   refine ⟨by decide, by decide, by decide, by decide, ?_⟩
   rintro ⟨⟨n, hn, r, hr, _⟩, _⟩
-  have h1 : bundleMsg snapTxMax (witness.map (·.env)) = some 33766037 := by decide
+  have h1 : bundleMsg foundCap (witness.map (·.env)) = some 33766037 := by decide
   rw [h1] at hn; cases hn
-  have h2 : relayMsg maxSize 33766037 = none := by decide
+  have h2 : relayMsg foundMax 33766037 = none := by decide
   rw [h2] at hr; cases hr
 
 /-- the repaired rule splits the same queue: the six storage transactions are batched (22.3 MB),
     the three signature-heavy ones go alone -/
-example : popGroups witness = [[mkTx 6 9129 3811179], [mkTx 7 9129 3811179], [mkTx 8 9129 3811179], witness.take 6] := by decide
+example : groups .envelope (threshold foundMax) foundCap witness =
+    [[mkTx 6 9129 3811179], [mkTx 7 9129 3811179], [mkTx 8 9129 3811179], witness.take 6] := by decide
 
 /-! ### snapshot-exchange messages -/
 
